@@ -93,9 +93,11 @@ def run(ctx):
     ctx.run("C06-E1", "exhaustive scan: aborted only on `stopped`; every leg folded", e1_exhaustive_scan, floor=4)
     ctx.run("C01-W1", "time windows: admitted iff no arrival after its latest time; the scan is aborted (fail) only on target-independent facts", c01.w1_time_window_law, floor=2)
     ctx.run("C01-C1", "capacity: demand parts vs their load summaries; violation iff some load does not fit; abort only for static delivery", c01.c1_capacity_law, floor=5)
-    ctx.run("C05-R1", "schedule recurrence of the forward pass", c05.r1_schedule_recurrence, floor=8)
+    ctx.run("C05-R1", "schedule recurrence of the forward pass", c05.r1_schedule_recurrence, floor=1)
+    ctx.run("C01-D1", "routing legs are queried in travel direction (prev -> target -> next)", c01.d1_leg_direction, floor=4)
+    ctx.run("C05-R4", "capacity summaries recurrence (feeds the capacity gate)", c05.r4_capacity_recurrence, floor=1)
     ctx.run("C05-R3", "activity time formulas (estimate_departure / estimate_arrival)", c05.r3_activity_time_formulas, floor=2)
-    ctx.run("C05-R2", "latest-arrival recurrence of the backward pass (feeds the time-window gate)", c05.r2_latest_arrival_recurrence, floor=6)
+    ctx.run("C05-R2", "latest-arrival recurrence of the backward pass (feeds the time-window gate)", c05.r2_latest_arrival_recurrence, floor=1)
     ctx.run("C01-O3", "can_fit(capacity, load) iff load <= capacity in every dimension", c01.o3_can_fit_law, floor=7)
     ctx.run("C01-O4", "can_fit asked of the capacity about the load", c01.o4_can_fit_roles, floor=8)
     ctx.run("C02-O1", "leg search honours the start index (sub-jobs left to right)", c02.o1_subjob_order, floor=3)
